@@ -19,7 +19,7 @@ import (
 func init() { register("C09", runC09) }
 
 func runC09(r *kit.Run) {
-	n := int64(r.Scale(360, 100000))
+	n := int64(r.Scale(360, 300000))
 	for i := int64(0); i < n && !r.Stopped(); i++ {
 		if !r.Mine(i) {
 			continue
@@ -33,7 +33,7 @@ func runC09(r *kit.Run) {
 			c09Stats(r, i, r.Rng("stats", i))
 		}
 	}
-	nh := int64(r.Scale(80, 3000))
+	nh := int64(r.Scale(80, 9000))
 	for i := int64(0); i < nh && !r.Stopped(); i++ {
 		if !r.Mine(i) {
 			continue
